@@ -19,7 +19,14 @@ pub enum Case {
     /// FindChangePoints on a library length function
     IterLib { code: Code },
     /// FindChangePoints on a synthetic monotone step function: f(x) = base + #{s in steps : s <= x}
-    IterSynth { base: u32, steps: Vec<u64> },
+    /// with `top` the values are shifted so that the last one is usize::MAX (the function is still an ordinary
+    /// non-decreasing function; a constant one then equals usize::MAX everywhere)
+    IterSynth {
+        base: u32,
+        steps: Vec<u64>,
+        #[serde(default)]
+        top: bool,
+    },
     /// get_implied_distribution on a library length function
     Implied { code: Code },
 }
@@ -286,14 +293,25 @@ pub fn check_case(c: &Case, _env: &Env) -> CheckResult {
             let truth = own_change_points(&f, 1 << 63, 100_000);
             check_iterator(f, &truth, &format!("{:?}", code), &mut o)?;
         }
-        Case::IterSynth { base, steps } => {
+        Case::IterSynth { base, steps, top } => {
             let mut st = steps.clone();
             st.sort_unstable();
             st.dedup();
             st.retain(|&s| s != 0);
             let st2 = st.clone();
             let base = *base as usize;
-            let f = move |x: u64| base + st2.partition_point(|&s| s <= x);
+            let (top, k) = (*top, st.len());
+            let f = move |x: u64| {
+                let cnt = st2.partition_point(|&s| s <= x);
+                if top {
+                    usize::MAX - (k - cnt)
+                } else {
+                    base + cnt
+                }
+            };
+            if top {
+                o.nt("values_reach_usize_max");
+            }
             let truth: Vec<u64> = st.iter().copied().filter(|&s| s <= 1 << 63).collect();
             check_iterator(f, &truth, &format!("synthetic steps {:?}", st), &mut o)?;
             if st.is_empty() {
@@ -462,6 +480,16 @@ fn run(ctx: &Ctx, env: &Env) -> Stats {
         }
         part.finish()
     }));
+    jobs.push(Box::new(move |ctx: &Ctx| {
+        let mut part = Part::new(ctx, "iterator/extreme_values", "step functions whose values end at usize::MAX (constant, one step, several steps)", true);
+        let f = |c: &Case| check_case(c, env);
+        for steps in [vec![], vec![1u64], vec![2], vec![65535], vec![1 << 40], vec![3, 1 << 62], vec![1 << 63], vec![5, 6, 7, (1 << 63) + 9]] {
+            for top in [true, false] {
+                part.check(&Case::IterSynth { base: 0, steps: steps.clone(), top }, &f);
+            }
+        }
+        part.finish()
+    }));
     let n_rand = ctx.t(20_000u64, 500_000);
     for j in 0..8 {
         jobs.push(Box::new(move |ctx: &Ctx| {
@@ -483,7 +511,7 @@ pub fn gen_synth(s: &mut Src) -> Case {
             _ => (1u64 << 63).wrapping_add(s.mag64() >> 1),
         })
         .collect();
-    Case::IterSynth { base: s.below(200) as u32, steps }
+    Case::IterSynth { base: s.below(200) as u32, steps, top: s.below(8) == 0 }
 }
 
 fn replay(v: &serde_json::Value, env: &Env) -> CheckResult {
